@@ -131,3 +131,24 @@ Proof.
   destruct (run_seq (cfg_of idb keyb) seq3 [r0; [1]; r1; [1]]) as [fs rs] eqn:E.
   split; [|split; [|split; [|exact H]]]; vm_compute in E; inversion E; subst; vm_compute; reflexivity.
 Qed.
+
+(* C10: in UTC on 14 Nov 2023 a schedule 07:05 - 23:59 on Monday and Sunday is created; listed back from slot 3 two days later it
+   shows those days and those times *)
+Require AS.Props.C10.
+Require Import AS.Model.Clock AS.Model.NextRun AS.Model.ScheduleParser AS.Proofs.WeekdayProofs AS.Proofs.ReadBack.
+Lemma c10_e1 : exists_today utc 1700000000 425.
+Proof. split; [exists 1699945500%Z; vm_compute; reflexivity|vm_compute; split; [discriminate|reflexivity]]. Qed.
+Lemma c10_e2 : exists_today utc 1700000000 1439.
+Proof. split; [exists 1700006340%Z; vm_compute; reflexivity|vm_compute; split; [discriminate|reflexivity]]. Qed.
+Lemma c10_nd : NoDup [0; 6]%nat. Proof. repeat constructor; cbn; intuition lia. Qed.
+Lemma c10_bd : forall d, In d [0; 6]%nat -> (d < n_days)%nat. Proof. intros d [<-|[<-|[]]]; vm_compute; lia. Qed.
+Example C10_read_back_example :
+  exists dur disp,
+    parse_schedule false false utc 1700172800 (hexlify (record 3 1 (sum_bits [0; 6]%nat) 0 (Z.to_N (instant utc 1700000000 425)) (Z.to_N (instant utc 1700000000 1439)) 0 0 0 0)) =
+    Ok {| sc_id := s2l "3"; sc_recurring := true; sc_days := [0; 6]%nat; sc_start := s2l "07:05"; sc_end := s2l "23:59"; sc_duration := dur; sc_display := disp |}.
+Proof.
+  pose proof (C10.C10_created_schedule_reads_back utc 1700000000 1700172800 425 1439 [0; 6]%nat 3 1 0 0 0 0 0
+          ltac:(reflexivity) ltac:(reflexivity) c10_e1 c10_e2 ltac:(discriminate) c10_nd c10_bd ltac:(reflexivity)) as H.
+  cbv zeta in H. destruct H as (_ & _ & _ & _ & dur & disp & H).
+  exists dur, disp. exact H.
+Qed.
